@@ -1504,4 +1504,530 @@ theorem Src_get_host_value (sens : List ((Nat × Nat) × Rat)) (a b : Nat) (m : 
     · simp [h2, Y.toRat?]
     · simp [h2]
   · simp [h]
+
+/-! ### the parse steps and `load` itself -/
+
+theorem natsOf_parse (l : List Y) : PyRt.natsOf (Y.int 1 :: l) = parseSubnets l := rfl
+theorem topoOf_parse (rows : List Y) : PyRt.topoOf rows = parseTopology rows := by
+  unfold PyRt.topoOf parseTopology
+  apply List.map_congr_left
+  intro r _
+  cases r <;> rfl
+
+/-- `_parse_subnets` -/
+theorem Src_parse_subnets (m : List (Y × Y)) :
+    SrcLoad.ScenarioLoader._parse_subnets m = (match getKey m "subnets" with
+      | none => none
+      | some v => if subnetsOk (listOf v) then
+          some (parseSubnets (listOf v), (parseSubnets (listOf v)).foldl (· + ·) 0 - 1) else none) := by
+  unfold SrcLoad.ScenarioLoader._parse_subnets
+  cases getKey m "subnets" with
+  | none => rfl
+  | some v =>
+    simp only [Src_validate_subnets, PyRt.sumY, natsOf_parse]
+    cases subnetsOk (listOf v) <;> rfl
+
+/-- `_parse_topology` -/
+theorem Src_parse_topology (subnets : List Nat) (m : List (Y × Y)) :
+    SrcLoad.ScenarioLoader._parse_topology subnets m = (match getKey m "topology" with
+      | none => none
+      | some v => if topologyOk (listOf v) subnets.length then some (parseTopology (listOf v)) else none) := by
+  unfold SrcLoad.ScenarioLoader._parse_topology
+  cases getKey m "topology" with
+  | none => rfl
+  | some v =>
+    simp only [Src_validate_topology, topoOf_parse]
+    cases topologyOk (listOf v) subnets.length <;> rfl
+
+/-- `_parse_os`, `_parse_services`, `_parse_processes` -/
+theorem Src_parse_names (m : List (Y × Y)) :
+    SrcLoad.ScenarioLoader._parse_os m = (match getKey m "os" with
+      | none => none | some v => if namesOk (listOf v) then some (listOf v) else none) ∧
+    SrcLoad.ScenarioLoader._parse_services m = (match getKey m "services" with
+      | none => none | some v => if namesOk (listOf v) then some (listOf v) else none) ∧
+    SrcLoad.ScenarioLoader._parse_processes m = (match getKey m "processes" with
+      | none => none | some v => if namesOk (listOf v) then some (listOf v) else none) := by
+  refine ⟨?_, ?_, ?_⟩
+  · unfold SrcLoad.ScenarioLoader._parse_os
+    cases getKey m "os" with
+    | none => rfl
+    | some v => simp only [(Src_validate_names (listOf v)).1]; cases namesOk (listOf v) <;> rfl
+  · unfold SrcLoad.ScenarioLoader._parse_services
+    cases getKey m "services" with
+    | none => rfl
+    | some v => simp only [(Src_validate_names (listOf v)).2.1]; cases namesOk (listOf v) <;> rfl
+  · unfold SrcLoad.ScenarioLoader._parse_processes
+    cases getKey m "processes" with
+    | none => rfl
+    | some v => simp only [(Src_validate_names (listOf v)).2.2]; cases namesOk (listOf v) <;> rfl
+
+/-- `_parse_exploits`, `_parse_privescs` -/
+theorem Src_parse_defs (svl prl osl : List Y) (m : List (Y × Y)) :
+    (SrcLoad.ScenarioLoader._parse_exploits svl osl m).isSome = (match getKey m "exploits" with
+      | none => false | some v => (mapOf v).all (fun kv => (parseExploit svl osl kv.1 kv.2).isSome)) ∧
+    (SrcLoad.ScenarioLoader._parse_privescs prl osl m).isSome = (match getKey m "privilege_escalation" with
+      | none => false | some v => (mapOf v).all (fun kv => (parsePrivesc prl osl kv.1 kv.2).isSome)) := by
+  constructor
+  · unfold SrcLoad.ScenarioLoader._parse_exploits
+    cases getKey m "exploits" with
+    | none => rfl
+    | some v =>
+      simp only [(Src_validate_defs svl prl osl (mapOf v)).1]
+      cases (mapOf v).all (fun kv => (parseExploit svl osl kv.1 kv.2).isSome) <;> rfl
+  · unfold SrcLoad.ScenarioLoader._parse_privescs
+    cases getKey m "privilege_escalation" with
+    | none => rfl
+    | some v =>
+      simp only [(Src_validate_defs svl prl osl (mapOf v)).2]
+      cases (mapOf v).all (fun kv => (parsePrivesc prl osl kv.1 kv.2).isSome) <;> rfl
+
+/-- `_parse_scan_costs` -/
+theorem Src_parse_scan_costs (m : List (Y × Y)) :
+    (SrcLoad.ScenarioLoader._parse_scan_costs m).isSome =
+      (match getKey m "os_scan_cost", getKey m "service_scan_cost", getKey m "subnet_scan_cost", getKey m "process_scan_cost" with
+       | some a, some b, some c, some d => scanCostOk a && scanCostOk b && scanCostOk c && scanCostOk d
+       | _, _, _, _ => false) := by
+  unfold SrcLoad.ScenarioLoader._parse_scan_costs
+  cases getKey m "os_scan_cost" with
+  | none => rfl
+  | some a =>
+  cases getKey m "service_scan_cost" with
+  | none => rfl
+  | some b =>
+  cases getKey m "subnet_scan_cost" with
+  | none => rfl
+  | some c =>
+  cases getKey m "process_scan_cost" with
+  | none => rfl
+  | some d =>
+    simp only [(Src_scan_cost_and_step_limit _).1]
+    cases scanCostOk a <;> cases scanCostOk b <;> cases scanCostOk c <;> cases scanCostOk d <;> rfl
+
+/-- `_parse_host_configs` -/
+theorem Src_parse_host_configs (subnets : List Nat) (osl svl prl : List Y) (sens : List ((Nat × Nat) × Rat))
+    (m : List (Y × Y)) (hit : ∀ v, getKey m "host_configurations" = some v → ∀ kv ∈ mapOf v, IterListCfg kv.2) :
+    (SrcLoad.ScenarioLoader._parse_host_configs subnets osl svl prl sens (subnets.foldl (· + ·) 0 - 1) m).isSome =
+      (match getKey m "host_configurations" with
+       | none => false | some v => hostConfigsOk subnets osl svl prl sens (mapOf v)) := by
+  unfold SrcLoad.ScenarioLoader._parse_host_configs
+  cases h : getKey m "host_configurations" with
+  | none => rfl
+  | some v =>
+    simp only [Src_validate_host_configs subnets osl svl prl sens (mapOf v) (hit v h)]
+    cases hostConfigsOk subnets osl svl prl sens (mapOf v) <;> rfl
+
+
+theorem pairsNoDup_append (xs ys : List (Nat × Nat)) (h : pairsNoDup (xs ++ ys) = true) :
+    pairsNoDup ys = true ∧ ∀ x ∈ xs, x ∉ ys := by
+  induction xs with
+  | nil => exact ⟨h, by simp⟩
+  | cons a t ih =>
+    simp only [List.cons_append, pairsNoDup, Bool.and_eq_true, Bool.not_eq_true', List.contains_eq_mem,
+      decide_eq_false_iff_not, List.mem_append, not_or] at h
+    obtain ⟨h1, h2⟩ := ih h.2
+    refine ⟨h1, ?_⟩
+    intro x hx
+    rcases List.mem_cons.mp hx with rfl | hx
+    · exact h.1.2
+    · exact h2 x hx
+
+theorem sensEntry_eval (subnets : List Nat) (kv : Y × Y) (h : sensEntryOk subnets kv = true) :
+    ∃ a b : Int, PyRt.evalAddr kv.1 = some (a, b) ∧ sensAddr kv = (a.toNat, b.toNat) := by
+  unfold sensEntryOk at h
+  unfold PyRt.evalAddr sensAddr
+  cases hk : kv.1 with
+  | str s =>
+    rw [hk] at h
+    simp only at h ⊢
+    cases hp : parsePair s with
+    | none => rw [hp] at h; simp at h
+    | some ab => exact ⟨ab.1, ab.2, rfl, rfl⟩
+  | _ => rw [hk] at h; simp at h
+
+/-- the dictionary `_parse_sensitive_hosts` builds from a validated section is the section, entry by entry -/
+theorem sens_loop (subnets : List Nat) (body : Y × Y → List ((Nat × Nat) × Rat) → PyRt.Ctl (Option (List ((Nat × Nat) × Rat))) (List ((Nat × Nat) × Rat)))
+    (hbody : ∀ kv d, body kv d = match PyRt.evalAddr kv.1 with
+      | none => .ret none | some k => .next (PyRt.sensSet d k kv.2))
+    (l pre : List (Y × Y)) (hall : l.all (sensEntryOk subnets) = true)
+    (hnd : pairsNoDup ((pre ++ l).map sensAddr) = true) :
+    PyRt.forEach l (parseSensitive pre) body = .next (parseSensitive (pre ++ l)) := by
+  induction l generalizing pre with
+  | nil => simp [PyRt.forEach]
+  | cons kv t ih =>
+    simp only [List.all_cons, Bool.and_eq_true] at hall
+    obtain ⟨a, b, he, ha⟩ := sensEntry_eval subnets kv hall.1
+    have hfresh : ∀ e ∈ parseSensitive pre, e.1 ≠ sensAddr kv := by
+      intro e he' heq
+      rw [List.map_append, List.map_cons] at hnd
+      obtain ⟨_, h2⟩ := pairsNoDup_append _ _ hnd
+      unfold parseSensitive at he'
+      obtain ⟨kv', hkv', rfl⟩ := List.mem_map.mp he'
+      have heq' : sensAddr kv' = sensAddr kv := heq
+      exact h2 (sensAddr kv') (List.mem_map.mpr ⟨kv', hkv', rfl⟩) (by rw [heq']; exact List.mem_cons_self ..)
+    simp only [PyRt.forEach, hbody, he]
+    have hset : PyRt.sensSet (parseSensitive pre) (a, b) kv.2 = parseSensitive (pre ++ [kv]) := by
+      unfold PyRt.sensSet
+      rw [← ha, dictSet_fresh _ _ _ hfresh]
+      simp [parseSensitive]
+    rw [hset, ih (pre ++ [kv]) hall.2 (by simpa using hnd)]
+    simp
+
+theorem sens_loop0 (subnets : List Nat) (body : Y × Y → List ((Nat × Nat) × Rat) → PyRt.Ctl (Option (List ((Nat × Nat) × Rat))) (List ((Nat × Nat) × Rat)))
+    (l : List (Y × Y)) (hall : l.all (sensEntryOk subnets) = true) (hnd : pairsNoDup (l.map sensAddr) = true)
+    (hbody : ∀ kv d, body kv d = match PyRt.evalAddr kv.1 with
+      | none => .ret none | some k => .next (PyRt.sensSet d k kv.2)) :
+    PyRt.forEach l [] body = .next (parseSensitive l) := by
+  have := sens_loop subnets body hbody l [] hall (by simpa using hnd)
+  simpa [parseSensitive] using this
+
+def fwFold (l : List (Y × Y)) (d : List ((Int × Int) × Y)) : List ((Int × Int) × Y) :=
+  l.foldl (fun d kv => PyRt.fwSet d ((PyRt.evalAddr kv.1).getD (0, 0)) kv.2) d
+
+theorem fw_loop (body : Y × Y → List ((Int × Int) × Y) → PyRt.Ctl (Option (List ((Int × Int) × Y))) (List ((Int × Int) × Y)))
+    (l : List (Y × Y)) (d : List ((Int × Int) × Y))
+    (hbody : ∀ kv d, body kv d = match PyRt.evalAddr kv.1 with
+      | none => .ret none | some k => .next (PyRt.fwSet d k kv.2)) :
+    PyRt.forEach l d body =
+      if l.all (fun kv => (PyRt.evalAddr kv.1).isSome) then .next (fwFold l d) else .ret none := by
+  induction l generalizing d with
+  | nil => rfl
+  | cons kv t ih =>
+    simp only [PyRt.forEach, hbody, List.all_cons, fwFold, List.foldl_cons]
+    rcases (by cases hh : PyRt.evalAddr kv.1 <;> simp : PyRt.evalAddr kv.1 = none ∨ ∃ k, PyRt.evalAddr kv.1 = some k)
+      with he | ⟨k, he⟩
+    · simp [he]
+    · simp only [he, ih, Option.isSome_some, Bool.true_and, Option.getD_some, fwFold]
+
+/-- `_parse_firewall` -/
+theorem Src_parse_firewall (topo : List (List Int)) (svl : List Y) (m : List (Y × Y)) :
+    (SrcLoad.ScenarioLoader._parse_firewall topo svl m).isSome =
+      (match getKey m "firewall" with
+       | none => false | some v => firewallOk topo svl (mapOf v)) := by
+  unfold SrcLoad.ScenarioLoader._parse_firewall
+  cases getKey m "firewall" with
+  | none => rfl
+  | some v =>
+    simp only [Src_validate_firewall, firewallOk]
+    cases hasRequiredFw topo (mapOf v) && (mapOf v).all (fun kv => fwSettingOk svl kv.2) with
+    | false => rfl
+    | true =>
+      simp only [Bool.not_true, Bool.false_eq_true, if_false, Bool.true_and]
+      rw [fw_loop _ (mapOf v) [] (fun kv d => by obtain ⟨k, w⟩ := kv; rfl)]
+      have : (mapOf v).all (fun kv => (PyRt.evalAddr kv.1).isSome) =
+          (mapOf v).all (fun kv => match kv.1 with | .str s => (parsePair s).isSome | _ => false) := by
+        apply all_congr_mem
+        intro kv _
+        unfold PyRt.evalAddr
+        cases kv.1 <;> rfl
+      rw [this]
+      cases (mapOf v).all (fun kv => match kv.1 with | .str s => (parsePair s).isSome | _ => false) <;> rfl
+
+theorem sections_step (m : List (Y × Y)) (h : sectionsOk m = true) (v : Y) (hv : getKey m "step_limit" = some v) :
+    v.intLike?.isSome = true := by
+  unfold sectionsOk at h
+  simp only [Bool.and_eq_true, List.all_eq_true] at h
+  unfold getKey at hv
+  cases hf : m.find? (fun p => p.1.pyEq (.str "step_limit")) with
+  | none => rw [hf] at hv; simp at hv
+  | some kv =>
+    rw [hf] at hv
+    simp only [Option.map_some, Option.some.injEq] at hv
+    have hmem := List.mem_of_find?_eq_some hf
+    have hp := List.find?_some hf
+    have := h.2 kv hmem
+    obtain ⟨k, w⟩ := kv
+    simp only at hp hv this
+    subst hv
+    cases k <;> simp [Y.pyEq, Y.toRat?] at hp
+    subst hp
+    have hl : (requiredKeys ++ optionalKeys).lookup "step_limit" = some Ty.int := by decide
+    simp only [hl, tyOk] at this
+    exact this
+
+/-- `_parse_step_limit` -/
+theorem Src_parse_step_limit (m : List (Y × Y)) (h : sectionsOk m = true) :
+    (SrcLoad.ScenarioLoader._parse_step_limit m).isSome = (stepLimitOf m).isSome := by
+  unfold SrcLoad.ScenarioLoader._parse_step_limit stepLimitOf
+  cases hv : getKey m "step_limit" with
+  | none => rfl
+  | some v =>
+    have hi := sections_step m h v hv
+    simp only [Option.isSome_some, Bool.not_true, Bool.false_eq_true, if_false]
+    cases hil : v.intLike? with
+    | none => rw [hil] at hi; simp at hi
+    | some i =>
+      have := (Src_scan_cost_and_step_limit v).2 i hil
+      unfold SrcLoad.ScenarioLoader.step_limit_ok at this
+      simp only
+      by_cases hpos : 0 < i
+      · simp [hpos] at this ⊢
+        simp [this]
+      · simp [hpos] at this ⊢
+        simp [this]
+
+/-- `_parse_sensitive_hosts` -/
+theorem Src_parse_sensitive (subnets : List Nat) (m : List (Y × Y)) :
+    SrcLoad.ScenarioLoader._parse_sensitive_hosts subnets (subnets.foldl (· + ·) 0 - 1) m =
+      (match getKey m "sensitive_hosts" with
+       | none => none
+       | some v => if sensitiveOk subnets (mapOf v) then some (parseSensitive (mapOf v)) else none) := by
+  unfold SrcLoad.ScenarioLoader._parse_sensitive_hosts
+  cases getKey m "sensitive_hosts" with
+  | none => rfl
+  | some v =>
+    simp only [Src_validate_sensitive]
+    cases hok : sensitiveOk subnets (mapOf v) with
+    | false => rfl
+    | true =>
+      simp only [Bool.not_true, Bool.false_eq_true, if_false, if_true]
+      have hok' := hok
+      unfold sensitiveOk at hok'
+      simp only [Bool.and_eq_true] at hok'
+      rw [sens_loop0 subnets _ (mapOf v) hok'.1.2 hok'.2 (fun kv d => by obtain ⟨k, w⟩ := kv; rfl)]
+
+/-! ### `load` -/
+
+/-- the sections of a document, `null` where one is missing -/
+def sectOf (m : List (Y × Y)) : Sect :=
+  { subnets := (getKey m "subnets").getD .null, topology := (getKey m "topology").getD .null,
+    os := (getKey m "os").getD .null, services := (getKey m "services").getD .null,
+    processes := (getKey m "processes").getD .null, sensitive := (getKey m "sensitive_hosts").getD .null,
+    exploits := (getKey m "exploits").getD .null, privescs := (getKey m "privilege_escalation").getD .null,
+    osCost := (getKey m "os_scan_cost").getD .null, svcCost := (getKey m "service_scan_cost").getD .null,
+    subnetCost := (getKey m "subnet_scan_cost").getD .null, procCost := (getKey m "process_scan_cost").getD .null,
+    hostConfigs := (getKey m "host_configurations").getD .null, firewall := (getKey m "firewall").getD .null }
+
+def keysPresent (m : List (Y × Y)) : Bool :=
+  (getKey m "subnets").isSome && (getKey m "topology").isSome && (getKey m "os").isSome && (getKey m "services").isSome
+  && (getKey m "processes").isSome && (getKey m "sensitive_hosts").isSome && (getKey m "exploits").isSome
+  && (getKey m "privilege_escalation").isSome && (getKey m "os_scan_cost").isSome && (getKey m "service_scan_cost").isSome
+  && (getKey m "subnet_scan_cost").isSome && (getKey m "process_scan_cost").isSome
+  && (getKey m "host_configurations").isSome && (getKey m "firewall").isSome
+
+/-- acceptance by the model's `load`, flat: typed known sections, every required section present, every check -/
+def accepts (m : List (Y × Y)) : Bool :=
+  sectionsOk m && keysPresent m && (checks m (sectOf m)).all (·.1)
+
+theorem firstFail_all (l : List (Bool × Err)) : (firstFail l).isNone = l.all (·.1) := by
+  induction l with
+  | nil => rfl
+  | cons p t ih => obtain ⟨b, e⟩ := p; cases b <;> simp [firstFail, ih]
+
+theorem load_accepts (m : List (Y × Y)) :
+    (match load (.map m) with | .ok _ => true | .error _ => false) = accepts m := by
+  unfold load accepts
+  rcases (by cases sectionsOk m <;> simp : sectionsOk m = false ∨ sectionsOk m = true) with hs | hs
+  · simp [hs]
+  simp only [hs, Bool.not_true, Bool.false_eq_true, if_false, Bool.true_and]
+  cases h1 : getKey m "subnets" with
+  | none => simp [getSections, need, keysPresent, h1, bind, Except.bind]
+  | some v1 =>
+  cases h2 : getKey m "topology" with
+  | none => simp [getSections, need, keysPresent, h1, h2, bind, Except.bind]
+  | some v2 =>
+  cases h3 : getKey m "os" with
+  | none => simp [getSections, need, keysPresent, h1, h2, h3, bind, Except.bind]
+  | some v3 =>
+  cases h4 : getKey m "services" with
+  | none => simp [getSections, need, keysPresent, h1, h2, h3, h4, bind, Except.bind]
+  | some v4 =>
+  cases h5 : getKey m "processes" with
+  | none => simp [getSections, need, keysPresent, h1, h2, h3, h4, h5, bind, Except.bind]
+  | some v5 =>
+  cases h6 : getKey m "sensitive_hosts" with
+  | none => simp [getSections, need, keysPresent, h1, h2, h3, h4, h5, h6, bind, Except.bind]
+  | some v6 =>
+  cases h7 : getKey m "exploits" with
+  | none => simp [getSections, need, keysPresent, h1, h2, h3, h4, h5, h6, h7, bind, Except.bind]
+  | some v7 =>
+  cases h8 : getKey m "privilege_escalation" with
+  | none => simp [getSections, need, keysPresent, h1, h2, h3, h4, h5, h6, h7, h8, bind, Except.bind]
+  | some v8 =>
+  cases h9 : getKey m "os_scan_cost" with
+  | none => simp [getSections, need, keysPresent, h1, h2, h3, h4, h5, h6, h7, h8, h9, bind, Except.bind]
+  | some v9 =>
+  cases h10 : getKey m "service_scan_cost" with
+  | none => simp [getSections, need, keysPresent, h1, h2, h3, h4, h5, h6, h7, h8, h9, h10, bind, Except.bind]
+  | some v10 =>
+  cases h11 : getKey m "subnet_scan_cost" with
+  | none => simp [getSections, need, keysPresent, h1, h2, h3, h4, h5, h6, h7, h8, h9, h10, h11, bind, Except.bind]
+  | some v11 =>
+  cases h12 : getKey m "process_scan_cost" with
+  | none => simp [getSections, need, keysPresent, h1, h2, h3, h4, h5, h6, h7, h8, h9, h10, h11, h12, bind, Except.bind]
+  | some v12 =>
+  cases h13 : getKey m "host_configurations" with
+  | none => simp [getSections, need, keysPresent, h1, h2, h3, h4, h5, h6, h7, h8, h9, h10, h11, h12, h13, bind, Except.bind]
+  | some v13 =>
+  cases h14 : getKey m "firewall" with
+  | none => simp [getSections, need, keysPresent, h1, h2, h3, h4, h5, h6, h7, h8, h9, h10, h11, h12, h13, h14, bind, Except.bind]
+  | some v14 =>
+    have hS : getSections m = .ok (sectOf m) := by
+      simp [getSections, need, sectOf, h1, h2, h3, h4, h5, h6, h7, h8, h9, h10, h11, h12, h13, h14, bind, Except.bind, pure, Except.pure]
+    have hK : keysPresent m = true := by
+      simp [keysPresent, h1, h2, h3, h4, h5, h6, h7, h8, h9, h10, h11, h12, h13, h14]
+    rw [hS, hK]
+    simp only [Bool.true_and]
+    rw [← firstFail_all]
+    cases firstFail (checks m (sectOf m)) <;> rfl
+
+theorem opt_none {α : Type} {o : Option α} (h : o.isSome = false) : o = none := by cases o <;> simp_all
+theorem opt_some {α : Type} {o : Option α} (h : o.isSome = true) : ∃ x, o = some x := by
+  cases o with
+  | none => simp at h
+  | some x => exact ⟨x, rfl⟩
+
+theorem allSome_isSome {α : Type} (l : List (Option α)) : (allSome l).isSome = l.all (·.isSome) := by
+  induction l with
+  | nil => rfl
+  | cons o t ih =>
+    cases o with
+    | none => simp [allSome]
+    | some x =>
+      simp only [allSome, List.all_cons, Option.isSome_some, Bool.true_and, ← ih]
+      cases allSome t <;> rfl
+
+/-- hypothesis of the loader tie: the `services` / `processes` values of the host configurations are lists (or not
+iterable at all), see `IterListCfg` -/
+def HostCfgIter (m : List (Y × Y)) : Prop :=
+  ∀ v, getKey m "host_configurations" = some v → ∀ kv ∈ mapOf v, IterListCfg kv.2
+
+theorem Src_load_accepts (m : List (Y × Y)) (hit : HostCfgIter m) :
+    SrcLoad.ScenarioLoader.load m = accepts m := by
+  unfold SrcLoad.ScenarioLoader.load
+  simp only [accepts, keysPresent, checks, sectOf, List.all_cons, List.all_nil, Sect.subnetsL, Sect.topologyL,
+    Sect.sensitiveL, Sect.exploitsL, Sect.privescsL, allSome_isSome, List.all_map, Function.comp_def]
+  rw [Src_sections]
+  rcases (by cases sectionsOk m <;> simp : sectionsOk m = false ∨ sectionsOk m = true) with hs | hs
+  · simp [hs]
+  simp only [hs, Bool.not_true, Bool.false_eq_true, if_false, Bool.true_and]
+  rw [Src_parse_subnets]
+  rcases (by cases hh : getKey m "subnets" <;> simp : getKey m "subnets" = none ∨ ∃ v, getKey m "subnets" = some v) with h1 | ⟨v1, h1⟩
+  · simp [h1]
+  simp only [h1, Option.isSome_some, Option.getD_some, Bool.true_and]
+  rcases (by cases subnetsOk (listOf v1) <;> simp : subnetsOk (listOf v1) = false ∨ subnetsOk (listOf v1) = true) with c1 | c1
+  · simp [c1]
+  simp only [c1, if_true, Bool.true_and]
+  rw [Src_parse_topology]
+  rcases (by cases hh : getKey m "topology" <;> simp : getKey m "topology" = none ∨ ∃ v, getKey m "topology" = some v) with h2 | ⟨v2, h2⟩
+  · simp [h2]
+  simp only [h2, Option.isSome_some, Option.getD_some, Bool.true_and]
+  rcases (by cases topologyOk (listOf v2) (parseSubnets (listOf v1)).length <;> simp : topologyOk (listOf v2) (parseSubnets (listOf v1)).length = false ∨ topologyOk (listOf v2) (parseSubnets (listOf v1)).length = true) with c2 | c2
+  · simp [c2]
+  simp only [c2, if_true, Bool.true_and]
+  rw [(Src_parse_names m).1]
+  rcases (by cases hh : getKey m "os" <;> simp : getKey m "os" = none ∨ ∃ v, getKey m "os" = some v) with h3 | ⟨v3, h3⟩
+  · simp [h3]
+  simp only [h3, Option.isSome_some, Option.getD_some, Bool.true_and]
+  rcases (by cases namesOk (listOf v3) <;> simp : namesOk (listOf v3) = false ∨ namesOk (listOf v3) = true) with c3 | c3
+  · simp [c3]
+  simp only [c3, if_true, Bool.true_and]
+  rw [(Src_parse_names m).2.1]
+  rcases (by cases hh : getKey m "services" <;> simp : getKey m "services" = none ∨ ∃ v, getKey m "services" = some v) with h4 | ⟨v4, h4⟩
+  · simp [h4]
+  simp only [h4, Option.isSome_some, Option.getD_some, Bool.true_and]
+  rcases (by cases namesOk (listOf v4) <;> simp : namesOk (listOf v4) = false ∨ namesOk (listOf v4) = true) with c4 | c4
+  · simp [c4]
+  simp only [c4, if_true, Bool.true_and]
+  rw [(Src_parse_names m).2.2]
+  rcases (by cases hh : getKey m "processes" <;> simp : getKey m "processes" = none ∨ ∃ v, getKey m "processes" = some v) with h5 | ⟨v5, h5⟩
+  · simp [h5]
+  simp only [h5, Option.isSome_some, Option.getD_some, Bool.true_and]
+  rcases (by cases namesOk (listOf v5) <;> simp : namesOk (listOf v5) = false ∨ namesOk (listOf v5) = true) with c5 | c5
+  · simp [c5]
+  simp only [c5, if_true, Bool.true_and]
+  rw [Src_parse_sensitive]
+  rcases (by cases hh : getKey m "sensitive_hosts" <;> simp : getKey m "sensitive_hosts" = none ∨ ∃ v, getKey m "sensitive_hosts" = some v) with h6 | ⟨v6, h6⟩
+  · simp [h6]
+  simp only [h6, Option.isSome_some, Option.getD_some, Bool.true_and]
+  rcases (by cases sensitiveOk (parseSubnets (listOf v1)) (mapOf v6) <;> simp : sensitiveOk (parseSubnets (listOf v1)) (mapOf v6) = false ∨ sensitiveOk (parseSubnets (listOf v1)) (mapOf v6) = true) with c6 | c6
+  · simp [c6]
+  simp only [c6, if_true, Bool.true_and]
+  have hE := (Src_parse_defs (listOf v4) (listOf v5) (listOf v3) m).1
+  have hP := (Src_parse_defs (listOf v4) (listOf v5) (listOf v3) m).2
+  rcases (by cases hh : getKey m "exploits" <;> simp : getKey m "exploits" = none ∨ ∃ v, getKey m "exploits" = some v) with h7 | ⟨v7, h7⟩
+  · simp only [h7] at hE
+    simp [opt_none hE, h7]
+  simp only [h7, Option.isSome_some, Option.getD_some, Bool.true_and] at hE ⊢
+  rcases (by cases ((mapOf v7).all fun kv => (parseExploit (listOf v4) (listOf v3) kv.fst kv.snd).isSome) <;> simp : ((mapOf v7).all fun kv => (parseExploit (listOf v4) (listOf v3) kv.fst kv.snd).isSome) = false ∨ ((mapOf v7).all fun kv => (parseExploit (listOf v4) (listOf v3) kv.fst kv.snd).isSome) = true) with c7 | c7
+  · rw [c7] at hE
+    simp [opt_none hE, c7]
+  rw [c7] at hE
+  obtain ⟨x7, hx7⟩ := opt_some hE
+  simp only [hx7, c7, Bool.true_and]
+  rcases (by cases hh : getKey m "privilege_escalation" <;> simp : getKey m "privilege_escalation" = none ∨ ∃ v, getKey m "privilege_escalation" = some v) with h8 | ⟨v8, h8⟩
+  · simp only [h8] at hP
+    simp [opt_none hP, h8]
+  simp only [h8, Option.isSome_some, Option.getD_some, Bool.true_and] at hP ⊢
+  rcases (by cases ((mapOf v8).all fun kv => (parsePrivesc (listOf v5) (listOf v3) kv.fst kv.snd).isSome) <;> simp : ((mapOf v8).all fun kv => (parsePrivesc (listOf v5) (listOf v3) kv.fst kv.snd).isSome) = false ∨ ((mapOf v8).all fun kv => (parsePrivesc (listOf v5) (listOf v3) kv.fst kv.snd).isSome) = true) with c8 | c8
+  · rw [c8] at hP
+    simp [opt_none hP, c8]
+  rw [c8] at hP
+  obtain ⟨x8, hx8⟩ := opt_some hP
+  simp only [hx8, c8, Bool.true_and]
+  have hC := Src_parse_scan_costs m
+  rcases (by cases hh : getKey m "os_scan_cost" <;> simp : getKey m "os_scan_cost" = none ∨ ∃ v, getKey m "os_scan_cost" = some v) with h9 | ⟨v9, h9⟩
+  · simp only [h9] at hC
+    simp [opt_none hC, h9]
+  simp only [h9, Option.isSome_some, Option.getD_some, Bool.true_and] at hC ⊢
+  rcases (by cases hh : getKey m "service_scan_cost" <;> simp : getKey m "service_scan_cost" = none ∨ ∃ v, getKey m "service_scan_cost" = some v) with h10 | ⟨v10, h10⟩
+  · simp only [h10] at hC
+    simp [opt_none hC, h10]
+  simp only [h10, Option.isSome_some, Option.getD_some, Bool.true_and] at hC ⊢
+  rcases (by cases hh : getKey m "subnet_scan_cost" <;> simp : getKey m "subnet_scan_cost" = none ∨ ∃ v, getKey m "subnet_scan_cost" = some v) with h11 | ⟨v11, h11⟩
+  · simp only [h11] at hC
+    simp [opt_none hC, h11]
+  simp only [h11, Option.isSome_some, Option.getD_some, Bool.true_and] at hC ⊢
+  rcases (by cases hh : getKey m "process_scan_cost" <;> simp : getKey m "process_scan_cost" = none ∨ ∃ v, getKey m "process_scan_cost" = some v) with h12 | ⟨v12, h12⟩
+  · simp only [h12] at hC
+    simp [opt_none hC, h12]
+  simp only [h12, Option.isSome_some, Option.getD_some, Bool.true_and] at hC ⊢
+  rcases (by cases (scanCostOk v9 && scanCostOk v10 && scanCostOk v11 && scanCostOk v12) <;> simp : (scanCostOk v9 && scanCostOk v10 && scanCostOk v11 && scanCostOk v12) = false ∨ (scanCostOk v9 && scanCostOk v10 && scanCostOk v11 && scanCostOk v12) = true) with c9 | c9
+  · rw [c9] at hC
+    simp [opt_none hC, c9]
+  rw [c9] at hC
+  obtain ⟨⟨q1, q2, q3, q4⟩, hx9⟩ := opt_some hC
+  simp only [hx9, c9, Bool.true_and]
+  have hH := Src_parse_host_configs (parseSubnets (listOf v1)) (listOf v3) (listOf v4) (listOf v5) (parseSensitive (mapOf v6)) m hit
+  rcases (by cases hh : getKey m "host_configurations" <;> simp : getKey m "host_configurations" = none ∨ ∃ v, getKey m "host_configurations" = some v) with h13 | ⟨v13, h13⟩
+  · simp only [h13] at hH
+    simp [opt_none hH, h13]
+  simp only [h13, Option.isSome_some, Option.getD_some, Bool.true_and] at hH ⊢
+  rcases (by cases hostConfigsOk (parseSubnets (listOf v1)) (listOf v3) (listOf v4) (listOf v5) (parseSensitive (mapOf v6)) (mapOf v13) <;> simp : hostConfigsOk (parseSubnets (listOf v1)) (listOf v3) (listOf v4) (listOf v5) (parseSensitive (mapOf v6)) (mapOf v13) = false ∨ hostConfigsOk (parseSubnets (listOf v1)) (listOf v3) (listOf v4) (listOf v5) (parseSensitive (mapOf v6)) (mapOf v13) = true) with c13 | c13
+  · rw [c13] at hH
+    simp [opt_none hH, c13]
+  rw [c13] at hH
+  obtain ⟨x13, hx13⟩ := opt_some hH
+  simp only [hx13, c13, Bool.true_and]
+  have hF := Src_parse_firewall (parseTopology (listOf v2)) (listOf v4) m
+  rcases (by cases hh : getKey m "firewall" <;> simp : getKey m "firewall" = none ∨ ∃ v, getKey m "firewall" = some v) with h14 | ⟨v14, h14⟩
+  · simp only [h14] at hF
+    simp [opt_none hF, h14]
+  simp only [h14, Option.isSome_some, Option.getD_some, Bool.true_and] at hF ⊢
+  rcases (by cases firewallOk (parseTopology (listOf v2)) (listOf v4) (mapOf v14) <;> simp : firewallOk (parseTopology (listOf v2)) (listOf v4) (mapOf v14) = false ∨ firewallOk (parseTopology (listOf v2)) (listOf v4) (mapOf v14) = true) with c14 | c14
+  · rw [c14] at hF
+    simp [opt_none hF, c14]
+  rw [c14] at hF
+  obtain ⟨x14, hx14⟩ := opt_some hF
+  simp only [hx14, c14, Bool.true_and]
+  have hL := Src_parse_step_limit m hs
+  rcases (by cases (stepLimitOf m).isSome <;> simp : (stepLimitOf m).isSome = false ∨ (stepLimitOf m).isSome = true) with c15 | c15
+  · rw [c15] at hL
+    simp [opt_none hL, c15]
+  rw [c15] at hL
+  obtain ⟨x15, hx15⟩ := opt_some hL
+  simp only [hx15, c15, Bool.true_and]
+
+/-- **the loader, end to end**: `ScenarioLoader.load`, translated from the source (the sections test, every `_parse_*`
+step with its validator and the data later steps read, in the order `load` calls them; `_parse_hosts` builds objects
+only), returns a scenario exactly when the model's `load` does -/
+theorem Src_load (m : List (Y × Y)) (hit : HostCfgIter m) :
+    SrcLoad.ScenarioLoader.load m = (match load (.map m) with | .ok _ => true | .error _ => false) := by
+  rw [Src_load_accepts m hit, load_accepts]
+
+/-- every C18 theorem (`Rejected`) is a statement about the translated `load` -/
+theorem Src_load_rejects (m : List (Y × Y)) (hit : HostCfgIter m) (h : Rejected (.map m)) :
+    SrcLoad.ScenarioLoader.load m = false := by
+  obtain ⟨e, he⟩ := h
+  rw [Src_load m hit, he]
+
 end NASim
